@@ -1,5 +1,6 @@
 pub mod adoc;
 pub mod chars;
+pub mod dom;
 pub mod edits;
 pub mod gen;
 pub mod wf;
